@@ -186,6 +186,109 @@ def gen_packet_oracle(rng, kind):
     return head + "|" + ";".join(ops)
 
 
+def describe_msgs(bodies, exe=None):
+    """the Message-level facts the templating model needs (trivial?/what/TemplateHashCode64/template size/
+    TemplatedFlatten bytes/shape), tabulated by the harness itself (head D); None if unavailable"""
+    import subprocess
+    exe = exe or os.path.join(vlib.BUILD, "bin", "gw_impl")
+    if not os.path.exists(exe):
+        return None
+    try:
+        p = subprocess.run([exe], input="D|" + ";".join("q:" + hexs(b) for b in bodies) + "\n", stdout=subprocess.PIPE,
+                           stderr=subprocess.PIPE, text=True, timeout=60, env=dict(os.environ, **vlib.SAN_ENV))
+    except Exception:
+        return None
+    if p.returncode != 0 or not p.stdout.startswith("0 "):
+        return None
+    ents = [e for e in p.stdout.strip()[2:].split(",") if e != ""]
+    if len(ents) != len(bodies) or any(e == "bad" for e in ents):
+        return None
+    return ents
+
+
+def tmpl_bodies(rng):
+    """Messages drawn from a few shapes (so that templates get reused), what-only Messages, shapes whose
+    template hashes collide, nested Messages"""
+    shapes = []
+    names = ["a", "b", "cc", "nm"]
+    for _ in range(rng.choice([1, 2, 3, 4])):
+        k = rng.choice([1, 1, 2, 3])
+        shapes.append([(rng.choice(names) + str(j), rng.choice(["i", "s", "r"]), rng.choice([1, 1, 2, 3])) for j in range(k)])
+    if rng.random() < 0.5:      # two shapes with the same TemplateHashCode64
+        shapes.append([("a", "i", 3), ("b", "i", 1)])
+        shapes.append([("a", "i", 1), ("b", "i", 2)])
+    out = []
+    for _ in range(rng.choice([2, 3, 5, 8, 12])):
+        r = rng.random()
+        if r < 0.2:
+            out.append(flat_msg(rng.choice([0, 1, 2, 77])))
+            continue
+        sh = rng.choice(shapes)
+        fields = []
+        for (nm, ty, cnt) in sh:
+            if ty == "i":
+                fields.append(f_i32(nm, [rng.randint(-9, 9) for _ in range(cnt)]))
+            elif ty == "s":
+                fields.append(f_str(nm, [bytes(rng.choice(b"abcxyz") for _ in range(rng.randint(0, 6))) for _ in range(cnt)]))
+            else:
+                fields.append(f_raw(nm, [bytes(rng.randrange(256) for _ in range(rng.randint(1, 9))) for _ in range(cnt)]))
+        if r > 0.9:
+            fields.append(f_msg("sub", [flat_msg(3, [f_i32("q", [rng.randint(0, 5)])])]))
+        out.append(flat_msg(rng.choice([1, 2, 3]), fields))
+    return out
+
+
+def gen_tmpl_model(rng):
+    """templating gateway, DEFAULT encoding, corresponded with the Coq model (both LRU caches compared after every call)"""
+    bodies = tmpl_bodies(rng)
+    ents = describe_msgs(bodies)
+    if ents is None:
+        return None
+    maxcache = rng.choice([1048576, 1048576, 40, 60, 100, 150, 300])
+    qs = ["q:" + hexs(b) for b in bodies]
+    tail = drain(rng, rng.choice([0, 2, 3]), rng.choice([0, 0, 30]))
+    return "P:0:%d:%d:%s|" % (NOLIM, maxcache, ",".join(ents)) + ";".join(interleave(rng, qs, rng.choice([0, 2, 4, 8]), tail))
+
+
+def simple_body(rng):
+    """Messages within the repertoire the C mini/micro codecs and the C++ one share"""
+    r = rng.random()
+    if r < 0.3:
+        return flat_msg(rng.choice([0, 1, 77, 0xffffffff]))
+    if r < 0.7:
+        return flat_msg(5, [f_i32("i", [rng.randint(-5, 5) for _ in range(rng.randint(1, 3))])])
+    return flat_msg(6, [f_str("s", [bytes(rng.choice(b"abcxyz ") for _ in range(rng.randint(0, 9))) for _ in range(rng.randint(1, 3))]),
+                        f_i32("n", [rng.randint(0, 9)])])
+
+
+def gen_c_gateway(rng, head):
+    """oracle-only: lang/c MiniMessageGateway / MicroMessageGateway talking to the C++ MessageIOGateway (MC, CM, UC, CU)"""
+    qs = ["q:" + hexs(simple_body(rng)) for _ in range(rng.choice([1, 2, 3, 5]))]
+    return head + "|" + ";".join(interleave(rng, qs, rng.choice([0, 2, 4, 8]), drain(rng, 3, rng.choice([0, 0, 30]))))
+
+
+def gen_websocket(rng, head):
+    """oracle-only: WebSocketMessageIOGateway pair after the handshake, slave MessageIOGateway on both ends;
+    WC = client sends (masked frames), WS = server sends"""
+    qs = ["q:" + hexs(rand_body(rng, rng.random() < 0.1)) for _ in range(rng.choice([1, 2, 3, 5]))]
+    return head + "|" + ";".join(interleave(rng, qs, rng.choice([0, 2, 4, 8]), drain(rng, 3, rng.choice([0, 0, 30]))))
+
+
+def gen_stress(rng):
+    """oracle-only: dataio/StressTestParserProxyDataIO between the sender and the scripted transport, as a second,
+    independent segmenter (min/max child write sizes in the head; op f = WriteBufferedOutput under a script)"""
+    base = rng.choice([lambda: gen_frame(rng, big_ok=False), lambda: gen_text(rng), lambda: gen_slip(rng), lambda: gen_raw(rng)])()
+    head, body = base.split("|", 1)
+    out = []
+    for o in body.split(";"):
+        out.append(o)
+        if o.startswith("o:") and rng.random() < 0.5:
+            out.append("f:" + ",".join(map(str, script(rng))))
+    out.append("f:" + ",".join([str(NOLIM)] * 300))
+    out.append("i:%d:%s" % (NOLIM, ",".join([str(NOLIM)] * 40)))
+    return "X%s:%d:%d|" % (head, rng.choice([0, 1, 3, 8]), rng.choice([1, 2, 5, 100])) + ";".join(out)
+
+
 def gen_tmpl_collision(rng, enc):
     """templating gateway, Messages whose TemplateHashCode64 collide: the hash is
     sum_k k*(H(name_k) + count_k*type_k), so {a:T x n1, b:T x n2} collide whenever n1+2*n2 is equal"""
@@ -329,6 +432,11 @@ def directed():
     cA = flat_msg(1, [f_i32("a", [1, 2, 3]), f_i32("b", [4])])
     cB = flat_msg(1, [f_i32("a", [5]), f_i32("b", [6, 7])])
     out.append("P:0:%s|q:%s;q:%s;o:%s:%s;i:%s:%s" % (ALL, hexs(cA), hexs(cB), ALL, ",".join([ALL] * 4), ALL, ",".join([ALL] * 8)))
+    # WebSocket: slave frames whose size sits on the 7-bit / 16-bit / 64-bit length-field boundaries, both directions
+    for sz in (125, 126, 127, 65535, 65536, 65537):
+        wb = body_of_size(_r.Random(sz), sz - 8)
+        for whead in ("WC", "WS"):
+            out.append("%s|q:%s;o:%s:%s;i:%s:%s;i:%s:%s" % (whead, hexs(wb), ALL, ",".join([ALL] * 4), ALL, ",".join(["7"] * 50), ALL, ",".join([ALL] * 20)))
     # packet mode: one text Message, two lines, sent as one packet (PlainTextMessageIOGateway.cpp 28-68)
     out.append("KT:0d0a|q:6162,63;o:%s:1,1;i:%s:1,1" % (ALL, ALL))
     # maxIncoming exactly at / below the body size
@@ -365,20 +473,34 @@ class CHECK(vlib.Check):
     prop = "C03"
     prop_file = "Properties_C03.v"
     model = ("Gw/GwExtract.v", "gw_driver.ml", "gw", ("ocommon.ml",))
-    harness = dict(name="gw", src="gw_h.cpp", san="asan", link_lib=True)
-    modelled = ("iogateway/MessageIOGateway.cpp stream mode, default encoding: DoOutputImplementation/SendMoreData, "
-                "DoInputImplementation/ReceiveMoreData/GetBodySize with scratch-buffer sizing and uint32 size arithmetic; "
+    harness = dict(name="gw", src="gw_h.cpp", san="asan", link_lib=True,
+                   c_srcs=("lang/c/minimessage/MiniMessage.c", "lang/c/minimessage/MiniMessageGateway.c",
+                           os.path.join(vlib.VERIF, "harness", "gw_c_micromsg.c"), "lang/c/micromessage/MicroMessageGateway.c"))
+    modelled = ("iogateway/MessageIOGateway.cpp stream mode: DoOutputImplementation/SendMoreData, DoInputImplementation/"
+                "ReceiveMoreData/GetBodySize with scratch-buffer sizing and uint32 size arithmetic, for the DEFAULT encoding and "
+                "the nine zlib encodings (32-byte threshold, ZLibCodec header, codec creation per level; deflate/inflate "
+                "themselves are premises, instantiated in the correspondence by the same libz via python); "
+                "TemplatingMessageIOGateway.cpp (three wire forms + plain fallback, flag bits, both LRU caches incl. TrimLRUCache; "
+                "Message-level template functions are premises, tabulated by the harness); "
                 "PlainTextMessageIOGateway.cpp DoOutputImplementationAux (1024 recursion cap) and the stream line splitter incl. "
                 "C-string handling; RawDataMessageIOGateway.cpp stream sender and both receive modes; "
                 "SLIPFramedDataMessageIOGateway.cpp encoder, decoder and per-call Message assembly. "
-                "Messages are opaque flattened bytes at this level (Message codec: C01).")
+                "Messages are opaque flattened bytes at this level (Message codec: C01). "
+                "Harness oracle only (not modelled): WebSocket framing (post-handshake client/server pair with slave gateway), "
+                "the C mini/micro gateways against the C++ one, zlib under the templating gateway, packet-mode (UDP-style) "
+                "operation of the binary/text/raw gateways, StressTestParserProxyDataIO as second segmenter.")
     premises = ["memory safety and object lifetime of the C++ (observed by ASan/UBSan in the harness only)",
-                "Message::Flatten/Unflatten round trip (C01) for the bodies carried by the binary gateway"]
+                "Message::Flatten/Unflatten round trip (C01) for the bodies carried by the binary gateway",
+                "zlib: inflate undoes deflate(Z_SYNC_FLUSH) on streams in step (hypothesis zlib_roundtrip of the C03_zlib_* theorems)",
+                "templating: Flatten/Unflatten and TemplatedFlatten/TemplatedUnflatten (against a template that describes the "
+                "Message) round-trip, template hash of a template = hash of its Message, bodies below 2^31 bytes "
+                "(hypotheses of the C03_templating_* theorems; no hash injectivity assumed)",
+                "text lines free of CR/LF/NUL; raw/SLIP chunks non-empty (stated domain boundaries)"]
     rule = ("op scripts (queue Message / DoOutput(max) with a per-Write byte-count script / DoInput(max) with a per-Read "
             "script / raw injection) over a sender and a receiver gateway joined by a scripted DataIO; after EVERY call the "
-            "return value, the bytes moved, the Messages delivered and the internal cursors of both ends are compared with "
-            "the extracted Coq model; the harness evaluates prefix-safety after every DoInput and completeness at the end. "
-            "Non-trivial = at least one Message queued and at least one DoInput call that is not a single unlimited read.")
+            "return value, the bytes moved, the Messages delivered and the internal cursors (and template caches) of both ends "
+            "are compared with the extracted Coq model; the harness evaluates prefix-safety after every DoInput and "
+            "completeness at the end. Non-trivial = at least one Message queued or bytes injected and at least one DoInput call.")
 
     def gen_cases(self, rng, tier):
         n = 500 if tier == "quick" else 6000
@@ -400,6 +522,17 @@ class CHECK(vlib.Check):
                 out.append(("templating-oracle", gen_codec_oracle(rng, "P", enc)))
         for j in range(12 if tier == "quick" else 100):
             out.append(("templating-collision", gen_tmpl_collision(rng, rng.choice([0, 0, 6]))))
+        for j in range(150 if tier == "quick" else 1500):
+            c = gen_tmpl_model(rng)
+            if c is not None:
+                out.append(("templating", c))
+        for j in range(10 if tier == "quick" else 100):
+            for head in ("MC", "CM", "UC", "CU"):
+                out.append(("c-gateways-oracle", gen_c_gateway(rng, head)))
+            for head in ("WC", "WS"):
+                out.append(("websocket-oracle", gen_websocket(rng, head)))
+            for _ in range(3):
+                out.append(("stress-proxy-oracle", gen_stress(rng)))
         for j in range(6 if tier == "quick" else 40):
             for kind in "FTR":
                 out.append(("packet-oracle", gen_packet_oracle(rng, kind)))
